@@ -9,6 +9,11 @@ functions (Model/Export.lean).
   gexp <n> (<xm> <xe> <ym> <ye>)*n           -> gexp sol …          (x = xm·2^xe, exact)
   lexp <m> (<x> <y> <orient> <placed>)*m     -> lexp ok|throw:runtime_error sol …
   dexp <m> (<cellIndex> <x> <y> <orient>)*m  -> dexp sol …
+  gcb <n> …   /  dcb <m> …                   -> gcb sol … / dcb sol …   same arguments as gexp / dexp:
+                                                `GlobalPlacer::callback` / `DetailedPlacer::callback` with a callback
+                                                installed; the result becomes the current circuit
+  gfin <wm> <we> <n> (<xLBm> <xLBe> <xUBm> <xUBe> <yLBm> <yLBe> <yUBm> <yUBe>)*n
+                                             -> gfin sol …   `GlobalPlacer::exportPlacement(circuit)`: blend, then export
 -/
 open ColoVerif ColoVerif.Export Driver
 
@@ -18,8 +23,30 @@ def quads : List Int → List (Int × Int × Int × Int)
   | a :: b :: c :: d :: rest => (a, b, c, d) :: quads rest
   | _ => []
 
+def octs : List Int → List (Int × Int × Int × Int × Int × Int × Int × Int)
+  | a :: b :: c :: d :: e :: f :: g :: h :: rest => (a, b, c, d, e, f, g, h) :: octs rest
+  | _ => []
+
+def globalOf (rest : List String) : List Rat × List Rat :=
+  ((quads (ints rest)).map (fun (xm, xe, _, _) => dyadic xm xe), (quads (ints rest)).map (fun (_, _, ym, ye) => dyadic ym ye))
+
+def detOf (m : String) (rest : List String) : DetVectors :=
+  ⟨(int! m).toNat, (quads (ints rest)).map (·.1), (quads (ints rest)).map (·.2.1), (quads (ints rest)).map (·.2.2.1),
+   (quads (ints rest)).map (fun t => Orient.ofCode t.2.2.2.toNat)⟩
+
 def step (c : Circuit) (ws : List String) : Circuit × List String :=
   match ws with
+  | "gcb" :: _ :: rest =>
+    let r := globalCallback true c (globalOf rest).1 (globalOf rest).2
+    (r, ["gcb " ++ showSolution r])
+  | "dcb" :: m :: rest =>
+    let r := detailedCallback true c (detOf m rest)
+    (r, ["dcb " ++ showSolution r])
+  | "gfin" :: wm :: we :: _ :: rest =>
+    let o := octs (ints rest)
+    let G : GlobalVectors := ⟨dyadic (int! wm) (int! we), o.map (fun t => dyadic t.1 t.2.1), o.map (fun t => dyadic t.2.2.1 t.2.2.2.1),
+                             o.map (fun t => dyadic t.2.2.2.2.1 t.2.2.2.2.2.1), o.map (fun t => dyadic t.2.2.2.2.2.2.1 t.2.2.2.2.2.2.2)⟩
+    (c, ["gfin " ++ showSolution (exportGlobalBlend c G)])
   | ["case", k] => (c, ["case " ++ k])
   | ["end"] => (c, [])
   | [] => (c, [])
